@@ -41,6 +41,7 @@ type c03Case struct {
 	Gzip     bool        `json:"gzip,omitempty"`
 	Chunked  bool        `json:"chunked,omitempty"` // body of unknown length (Content-Length -1)
 	Accept   string      `json:"accept,omitempty"`  // Accept header (a reply type other than the body's type)
+	Rot      bool        `json:"x_rot,omitempty"`   // Content-Encoding: x-rot (the custom compressor)
 	Negative bool        `json:"negative,omitempty"`
 }
 
@@ -89,7 +90,7 @@ func newC03Env() (*c03Env, error) {
 			boundRule{M: 0, Rule: dyn.Rule{Kind: "post", Path: fmt.Sprintf("/c03/pn/f%d/{%s}", i, f.path), Body: "nested"}},
 		)
 	}
-	m, impl, err := schema.newMux(rules, nil)
+	m, impl, err := schema.newMux(rules, nil, customOpts()...) // plus a custom codec (application/x-rev) and compressor (x-rot)
 	if err != nil {
 		return nil, err
 	}
@@ -174,6 +175,9 @@ func (e *c03Env) build(tc *c03Case) (req *http.Request, want protoreflect.Messag
 			case "protobuf", "octet-stream":
 				body, err = proto.Marshal(bm)
 				hdr.Set("Content-Type", "application/"+tc.Codec)
+			case "x-rev":
+				body, err = revCodec{}.Marshal(bm)
+				hdr.Set("Content-Type", "application/x-rev")
 			case "json":
 				body, err = protojson.Marshal(bm)
 				hdr.Set("Content-Type", "application/json")
@@ -187,6 +191,10 @@ func (e *c03Env) build(tc *c03Case) (req *http.Request, want protoreflect.Messag
 				// An empty sub-message has no bytes in protobuf: "present but empty" cannot be
 				// expressed through a body-field rule; the reference expects it absent.
 				want.Clear(complexDesc.Fields().ByName("nested"))
+			}
+			if tc.Rot {
+				body = rotBytes(body)
+				hdr.Set("Content-Encoding", "x-rot")
 			}
 			if tc.Gzip {
 				var zb bytes.Buffer
@@ -285,7 +293,7 @@ func (g *c03Gen) singles(thorough bool) {
 				}
 				if ti == 0 {
 					a.Channel = "body"
-					for _, cd := range append(codecs, "", "octet-stream") {
+					for _, cd := range append(codecs, "", "octet-stream", "x-rev") {
 						for _, gz := range []bool{false, true} {
 							g.cases = append(g.cases, c03Case{Assigns: []c03Assign{a}, Rule: "b", Codec: cd, Gzip: gz})
 							if isNested {
@@ -459,7 +467,7 @@ func c03Key(tc *c03Case) string {
 	for _, a := range tc.Assigns {
 		as = append(as, fmt.Sprintf("%s=%q@%s", a.Field, a.Text, a.Channel))
 	}
-	return fmt.Sprintf("rule=%s codec=%s gzip=%v chunked=%v accept=%q neg=%v %s", tc.Rule, tc.Codec, tc.Gzip, tc.Chunked, tc.Accept, tc.Negative, strings.Join(as, " & "))
+	return fmt.Sprintf("rule=%s codec=%s gzip=%v x-rot=%v chunked=%v accept=%q neg=%v %s", tc.Rule, tc.Codec, tc.Gzip, tc.Rot, tc.Chunked, tc.Accept, tc.Negative, strings.Join(as, " & "))
 }
 
 // c03Class groups cases for reporting (one replay per class and oracle).
@@ -472,12 +480,12 @@ func c03Class(tc *c03Case) string {
 		}
 		as = append(as, fmt.Sprintf("%s@%s", f, a.Channel))
 	}
-	return fmt.Sprintf("%s|%s|%v|%v|%s|%s", tc.Rule, tc.Codec, tc.Gzip, tc.Chunked, tc.Accept, strings.Join(as, "&"))
+	return fmt.Sprintf("%s|%s|%v|%v|%v|%s|%s", tc.Rule, tc.Codec, tc.Gzip, tc.Rot, tc.Chunked, tc.Accept, strings.Join(as, "&"))
 }
 
 func runC03(c *Ctx) {
 	r := c.Run
-	r.Rule("ComplexRequest (15 scalar kinds, enum, bytes, repeated scalars, nested message, oneof members, wrappers, Timestamp/Duration/FieldMask) × rules {no body, body '*', body 'nested', path variable on every bindable field ± body} × every field × every boundary value × every spelling × every channel (path, query by proto name, query by JSON name, body JSON/protobuf/octet-stream ± gzip, with known and with unknown Content-Length, without and with an Accept header naming another codec); pairs of fields in different channels (quick: all ordered pairs, 2 × 1 values; thorough: all ordered pairs × every value of both fields, plus every ordered triple path+query+nested-body); negative: texts invalid under every reading, in query and path; distinct = (rule, codec, channels, field) classes")
+	r.Rule("ComplexRequest (15 scalar kinds, enum, bytes, repeated scalars, nested message, oneof members, wrappers, Timestamp/Duration/FieldMask) × rules {no body, body '*', body 'nested', path variable on every bindable field ± body} × every field × every boundary value × every spelling × every channel (path, query by proto name, query by JSON name, body JSON/protobuf/octet-stream/a custom codec registered with CodecOption ± gzip or a custom compressor registered with CompressorOption, with known and with unknown Content-Length, without and with an Accept header naming another codec); pairs of fields in different channels (quick: all ordered pairs, 2 × 1 values; thorough: all ordered pairs × every value of both fields, plus every ordered triple path+query+nested-body); negative: texts invalid under every reading, in query and path; distinct = (rule, codec, channels, field) classes")
 	r.Assume("not demanded: NaN/Infinity, 'True'/'1' for bool, leading '+'/zeros, exponent or '.0' forms for integers, mixed base64 alphabets, empty or quoted wrapper text, Content-Type with parameters, JSON null, empty sub-message as protobuf body")
 	env0, err := newC03Env()
 	if err != nil {
@@ -508,9 +516,19 @@ func runC03(c *Ctx) {
 			switch tc.Codec {
 			case "json":
 				tc.Accept = "application/protobuf"
+			case "x-rev":
+				tc.Accept = "application/json"
 			default:
 				tc.Accept = []string{"application/json", "*/*"}[i%2]
 			}
+			g.cases = append(g.cases, tc)
+		}
+	}
+	// … and content-encoded with the custom compressor
+	for i := 0; i < nBefore; i++ {
+		if tc := g.cases[i]; tc.Codec != "" && !tc.Gzip {
+			tc.Rot = true
+			tc.Chunked = i%2 == 0
 			g.cases = append(g.cases, tc)
 		}
 	}
